@@ -577,7 +577,7 @@ func TestVerifC08(t *testing.T) {
 		rounds, seqLen = 300, 30000
 	}
 	vX := newVerifRun("C08", "transform/codon.OptimizeTable/post/no-cross-talk",
-		fmt.Sprintf("25 goroutines, one per table id, released together; each %d times: GetCodonTable(id).OptimizeTable(random sequence of up to %d letters) and compares the result with the sequential result (the counting oracle) at once and once more a little later (while the other goroutines keep re-weighting their tables); tables come straight from GetCodonTable (no copies); schedules are whatever the Go scheduler produces on this machine (not enumerated; the race detector is not part of this run); non-trivial = every call", rounds, seqLen))
+		fmt.Sprintf("25 goroutines, one per table id, released together; each %d times: GetCodonTable(id).OptimizeTable(random sequence of up to %d letters) and compares the result with the sequential result (the counting oracle) at once and once more a little later (while the other goroutines keep re-weighting their tables); tables come straight from GetCodonTable (no copies); schedules are whatever the Go scheduler produces on this machine (not enumerated; the race detector takes part only if the driver passes -race, which this test supports); non-trivial = every call", rounds, seqLen))
 	vX.Sampled()
 	{
 		var wg sync.WaitGroup
@@ -667,7 +667,7 @@ func TestVerifC08(t *testing.T) {
 	}
 	exhaustTo, sampled := 4, 4000
 	if thorough {
-		exhaustTo, sampled = 5, 400000
+		exhaustTo, sampled = 5, 250000
 	}
 	vH := newVerifRun("C08", "transform/codon.GetCodonTable/post/pristine-after-history",
 		fmt.Sprintf("two table registers A, B (initially empty); exhaustive: every operation sequence of length 1..%d over %d operations {A|B=GetCodonTable(1|11), A|B re-weighted with ATGATGATG | a sequence with every codon, A=AddCodonTable(A,B), A=CompromiseCodonTable(A,B,0.1), A=ReadCodonJSON(WriteCodonJSON(A))}; sampled: %d sequences of length 5..8 over %d operations (ids 1,2,4,11,12,33; 5 sequences incl. lower case, non-ACGT, length not divisible by 3, empty; add/compromise/serialise on either register; cut-offs 0, 0.1, 0.3); an operation whose precondition fails in the model (empty operand, different codes, an amino acid with total weight 0 for compromise) is left out; after every step: the result equals the model's result computed from the model's argument values, a freshly requested table for each of ids 1, 11, 3 (sampled: all six + 3) equals NCBI's code with weight 1 everywhere, the other register still equals its model value; each history starts from default weights put back to 1; a history stops at its first violation; non-trivial = at least one re-weighting executed", exhaustTo, len(small), sampled, len(large)))
